@@ -25,7 +25,7 @@ def content(i, R):
     return (bytes([R.randrange(256) for _ in range(64)]) * (n // 64 + 1))[:n]
 
 
-def build(shape, seed=0, password=None, coder="lzma2", header="lzma", packcrc=False, damaged=()):
+def build(shape, seed=0, password=None, coder="lzma2", header="lzma", packcrc=False, damaged=(), partialcrc=False):
     """shape: {members:[{kind, folder, pos, parent}], nfolders}.  Returns (raw, info) with info[i] = {name, data, size, crc}"""
     R = random.Random(seed)
     names = shape_names(shape)
@@ -50,9 +50,22 @@ def build(shape, seed=0, password=None, coder="lzma2", header="lzma", packcrc=Fa
         f = shape["members"][i]["folder"]
         if f != last:
             cs = [dict({"id": c}, **({"dist": 3} if c == "delta" else {})) for c in coder.split("+")] + ([{"id": "aes"}] if password else [])   # "bcj+lzma2": a chain
-            folders.append({"nfiles": 0, "coders": cs, "crc": "substream"})
+            # partialcrc: some folders store no digests at all - the digest vector of the archive is then partially defined
+            folders.append({"nfiles": 0, "coders": cs, "crc": "none" if (partialcrc and (seed + len(folders)) % 3 == 0) else "substream"})
             last = f
         folders[-1]["nfiles"] += 1
+    # which members carry a digest: those of folders that store them
+    k = 0
+    for i in data_idx:
+        f = shape["members"][i]["folder"]
+    fi = -1
+    last = None
+    for i in data_idx:
+        f = shape["members"][i]["folder"]
+        if f != last:
+            fi += 1
+            last = f
+        info[i]["hascrc"] = folders[fi]["crc"] != "none"
     lay = {"files": files, "header": header if not password else "aes", "password": password, "packcrc": bool(packcrc)}
     if folders:
         lay["folders"] = folders
@@ -68,7 +81,8 @@ def build(shape, seed=0, password=None, coder="lzma2", header="lzma", packcrc=Fa
 
 def arch_event(shape, info, encrypted=False, bypath=True):
     return {"e": "arch", "nfolders": shape["nfolders"], "encrypted": bool(encrypted), "bypath": bool(bypath),
-            "members": [dict(m, size=[info[i]["size"] % 65536, info[i]["size"] >> 16], crc=[info[i]["crc"] % 65536, info[i]["crc"] >> 16])
+            "members": [dict(m, size=[info[i]["size"] % 65536, info[i]["size"] >> 16], crc=[info[i]["crc"] % 65536, info[i]["crc"] >> 16],
+                             hascrc=bool(info[i].get("hascrc", True)))
                         for i, m in enumerate(shape["members"])]}
 
 
@@ -169,7 +183,8 @@ def run_calls(py7zr, raw, shape, info, calls, *, target="stream", password=None,
                     L = z.list()
                     ev["names"] = [idx.get(f.filename, 0) for f in L]
                     ev["sizes"] = [[f.uncompressed % 65536, f.uncompressed >> 16] for f in L]
-                    ev["crcs"] = [[(f.crc32 or 0) % 65536, (f.crc32 or 0) >> 16] for f in L]
+                    # a listed CRC of None ("not stored") is not a CRC of 0
+                    ev["crcs"] = [[f.crc32 % 65536, f.crc32 >> 16] if f.crc32 is not None else [70000, 70000] for f in L]
                     ev["dirs"] = [bool(f.is_directory) for f in L]
                 elif c["name"] == "getinfo":
                     okk = True
